@@ -385,6 +385,30 @@ func enumRaw(x *core.Ctx, maxBody int, fn func(c *rawCase) bool) {
 			}
 		}
 	}
+	// F8: dense strata
+	enumDenseFrames(x, fn)
+}
+
+// enumDenseFrames: family F8 — the frames (specification encoder) of the
+// dense strata of gen/dense.go including contents MQTT gives no meaning to
+// and all 256 subscription option bytes: mid-range lengths of every field,
+// pairs of lengths, identifiers over a 7-bit-group alphabet, filter contents.
+func enumDenseFrames(x *core.Ctx, fn func(c *rawCase) bool) {
+	rc := &rawCase{}
+	stop := false
+	enumDense(x, allTypes, true, func(pc *pcase) {
+		if stop {
+			return
+		}
+		b, _, err := spec.Encode(pc.P, spec.Form{})
+		if err != nil {
+			return
+		}
+		rc.Stratum, rc.Stream, rc.Direct = "F8."+pc.Dense, b, -1
+		if !fn(rc) {
+			stop = true
+		}
+	})
 }
 
 func kindName(k spec.FieldKind) string {
